@@ -137,6 +137,49 @@ def r2(ctx):
     ctx.floor(R, 5)
 
 
+def _ret_values(cb, start):
+    """values the closure's bool result may take on paths that start at block `start`: forward propagation of constants
+    and copies through whole (projection-free) locals; 'T' / 'F' constants, 'X' anything computed (a comparison, a call)"""
+    state = {start: {}}
+    work = [start]
+    out = set()
+    def val(st, o):
+        c = op_const(o)
+        if c is not None:
+            return frozenset(["T" if c.get("v") == 1 else "F"]) if c.get("v") in (0, 1) else frozenset(["X"])
+        pl = o.get("c") or o.get("m") if isinstance(o, dict) else None
+        if isinstance(pl, dict) and not pl.get("p"):
+            return st.get(pl["l"], frozenset(["X"]))
+        return frozenset(["X"])
+    while work:
+        bb = work.pop()
+        st = dict(state[bb])
+        for s_ in cb.stmts(bb):
+            if s_["p"].get("p"):
+                continue
+            st[s_["p"]["l"]] = val(st, s_["r"].get("o")) if s_["r"]["k"] == "use" else frozenset(["X"])
+        t = cb.term(bb)
+        if t["k"] == "call" and not t["d"].get("p"):
+            st[t["d"]["l"]] = frozenset(["X"])
+        if t["k"] == "return":
+            out |= st.get(0, frozenset(["X"]))
+        for nx in cb.succ(bb):
+            old = state.get(nx)
+            if old is None:
+                state[nx] = dict(st)
+                work.append(nx)
+            else:
+                ch = False
+                for k_, v_ in st.items():
+                    nv = old.get(k_, frozenset()) | v_ if k_ in old else v_
+                    if old.get(k_) != nv:
+                        old[k_] = nv
+                        ch = True
+                if ch:
+                    work.append(nx)
+    return out
+
+
 def _partition_sets(ctx, fid):
     """variant set -> true of the partition closure in fid (switch on discr of a PendingOp)"""
     b = ctx.w.bodies.get(fid)
@@ -153,31 +196,7 @@ def _partition_sets(ctx, fid):
                 if adt != OP:
                     continue
                 for v, e in m.items():
-                    # does this edge reach an assignment _0 = true (possibly through comparisons)?
-                    r_ = cb.reachable(e[1])
-                    can_true = False
-                    for x in r_:
-                        for s in cb.stmts(x):
-                            if s["p"]["l"] == 0 and not s["p"].get("p"):
-                                c = op_const(s["r"].get("o")) if s["r"]["k"] == "use" else None
-                                if c is None or c.get("v") == 1:
-                                    can_true = True
-                        t2 = cb.term(x)
-                        if t2["k"] == "call" and t2["d"]["l"] == 0:
-                            can_true = True
-                    # restrict to blocks dominated by the edge (the arm itself)
-                    arm = [x for x in r_ if cb.dominated_by_edge(x, e)]
-                    arm_true = False
-                    for x in arm:
-                        for s in cb.stmts(x):
-                            if s["p"]["l"] == 0 and not s["p"].get("p"):
-                                c = op_const(s["r"].get("o")) if s["r"]["k"] == "use" else None
-                                if c is None or c.get("v") == 1:
-                                    arm_true = True
-                        t2 = cb.term(x)
-                        if t2["k"] == "call" and t2["d"]["l"] == 0:
-                            arm_true = True
-                    if arm_true:
+                    if "T" in _ret_values(cb, e[1]) or "X" in _ret_values(cb, e[1]):
                         claimed.add(v)
             out = claimed
     return out
@@ -300,6 +319,14 @@ def r3(ctx):
         fb = ctx.w.bodies.get(fid)
         if fb:
             ap = [bb for bb, t in fb.calls(FS + "apply_op_to_persisted")]
+            if not ap:
+                # `to_flush.iter().for_each(|op| self.apply_op_to_persisted(op))`: the body of the loop as a closure
+                for bb, t in fb.calls(re.compile(r"Iterator::for_each$|Iterator>::for_each$")):
+                    for cid in closure_args(fb, t):
+                        cb = ctx.w.bodies.get(cid)
+                        apb = [x for x, _ in cb.calls(FS + "apply_op_to_persisted")] if cb else []
+                        if apb and all(r_ not in cb.reachable(0, removed_blocks=apb) for r_ in cb.exits()):
+                            ap.append(bb)
             asg = [bb for bb, i, s in fb.all_stmts() if place_last_field(s["p"]) == FS + "pending"]
             ctx.inst(R, f"{fid.rsplit('::', 1)[1]}:applies-and-keeps", bool(ap) and bool(asg), fb.span, "flushed ops applied, the rest kept in the log" if ap and asg else
                      f"{fid} does not apply the flushed ops / keep the remainder")
